@@ -88,7 +88,11 @@ func C15_OAuth2PassThrough() {
 	o.totp, o.sms = false, false
 	f := newFlow(o)
 	redir := verif.Chars("p_redir", verif.Choice("len", verif.Bound(5, 7)+1))
-	enc, _ := json.Marshal(map[string]string{"redir": redir})
+	params := map[string]string{"redir": redir}
+	if verif.Choice("other-pass-along-parameter", 2) == 1 {
+		params["src"] = "n" // re-attached to the target as its query by End
+	}
+	enc, _ := json.Marshal(params)
 	f.w.Session.Set(authboss.SessionOAuth2Params, string(enc))
 	f.w.Session.Set(authboss.SessionOAuth2State, "STATE")
 	f.preS = f.w.Session.Snapshot()
